@@ -1,6 +1,8 @@
 import HcipyVerif.Model.Proto
 import HcipyVerif.Model.Aperture
 import HcipyVerif.Model.AperturePupil
+import HcipyVerif.Model.ApertureHistory
+import HcipyVerif.Model.ApertureTelescopes
 
 /-!
 Line-protocol front end of the C12 model.
@@ -15,6 +17,9 @@ C12 regsub sep <tol> <xs> <ys> <even> <r> <a> <dirs> <cx> <cy>
 C12 regsub pts <tol> <xs> <ys> <even> <r> <a> <dirs> <cx> <cy>
         →  ok <mask> <f_sub> <near flags of the masked points> <near-the-box flags of all points>
 C12 hexpos <rings> <pitch> <ap> <nsel> <sel…>      →  ok <[x0,y0,x1,y1,…] of the kept segment centres>
+C12 hist cart|polar <tol> <xs> <ys> <ops: - | scale:sx:sy;shift:dx:dy;rot:c:s;reverse;weights> <shape…>
+        →  ok <values> <near flags> <evalObj==pointwise (where agree) 0/1> <current points [x0,y0,…]>  |  undefined   (`evalAfter`, Model/ApertureHistory.lean)
+C12 hexcount luvoir_a|luvoir_b                    →  ok <#kept segments> <rings> <pitch> <ap> <clip radii>   (the constants of Model/ApertureTelescopes.lean)
 C12 hexpupil sep|pts|polar <tol> <xs> <ys> <segment|-> <rings> <pitch> <ap> <loop 0/1> <hw> <obs|-> <spiders [px,py,c,s,…]> <trs [..] | s:t> <nsel> <sel…> <segment shape>
         →  as `eval` (the pupil or the i-th returned segment)  |  err trs-length <#positions>  |  err no-segment <#positions>
 C12 hicat sep|pts|polar <tol> <xs> <ys> <segment|-> <gaps 0/1> <hw> <spiders> <pitchA> <apA> <pitchB> <apB> <segA shape> <segB shape> <central shape>
@@ -260,7 +265,47 @@ def regsubResp (st : St) (mode : String) (tol : Rat) (xs ys : List Rat) (even : 
     (st, s!"ok {showList showBool m} {showRatList fsub} {showList showBool ((compress m pts).map (near tol shape))} {showList showBool nearBox}")
   else (st, "bad-op")
 
+/-- one in-place operation `name:arg:arg` -/
+def parseIOp? (tok : String) : Option IOp :=
+  match tok.splitOn ":" with
+  | ["scale", a, b] => do some (.scale (← parseRat? a) (← parseRat? b))
+  | ["shift", a, b] => do some (.shift (← parseRat? a) (← parseRat? b))
+  | ["rot", a, b] => do some (.rot (← parseRat? a) (← parseRat? b))
+  | ["reverse"] => some .reverse
+  | ["weights"] => some .weights
+  | _ => none
+
+def parseIOps? (tok : String) : Option (List IOp) :=
+  if tok == "-" then some [] else (tok.splitOn ";").mapM parseIOp?
+
+/-- `evalAfter`: the object after its history, the field on it, the current points -/
+def histResp (st : St) (tol : Rat) (g : GObj) (ops : List IOp) (s : Shape) : St × String :=
+  match runOps ops g, evalAfter s ops g with
+  | some g', some vals =>
+    let pts := g'.points
+    let self := match g' with
+      | .cart _ => vals == pts.map (val s)
+      | .polar qs => vals.length == pts.length &&
+          (vals.zip (pts.zip (qs.map (diskAgree s)))).all fun (v, p, a) => !a || v == val s p
+    -- `inplace_op_moves_points`, run: the points of the object are the geometrically transformed points
+    let moved := ops.foldl (fun (l : List Pt) o => o.reorder (l.map o.onPt)) g.points
+    (st, s!"ok {showRatList vals} {showList showBool (pts.map (near tol s))} {showBool (self && moved == pts)} {showRatList (pts.flatMap fun p => [p.1, p.2])}")
+  | _, _ => (st, "undefined")
+
 def step (st : St) : List String → St × String
+  | "hist" :: kind :: tol :: xs :: ys :: ops :: shape =>
+    match parseRat? tol, parseRatList? xs, parseRatList? ys, parseIOps? ops, parseWhole? shape with
+    | some tol, some xs, some ys, some ops, some s =>
+      if kind == "cart" then
+        if xs.length != ys.length then (st, "bad-op") else histResp st tol (.cart (xs.zip ys)) ops s
+      else if kind == "polar" then
+        match pairs? ys with
+        | some dirs =>
+          if xs.length != dirs.length then (st, "bad-op") else
+          histResp st tol (.polar ((xs.zip dirs).map fun q => (q.1, q.2.1, q.2.2))) ops s
+        | none => (st, "bad-op")
+      else (st, "bad-op")
+    | _, _, _, _, _ => (st, "bad-op")
   | "eval" :: mode :: tol :: xs :: ys :: shape =>
     match parseRat? tol, parseRatList? xs, parseRatList? ys, parseWhole? shape with
     | some tol, some xs, some ys, some s => evalResp st mode tol xs ys s
@@ -304,6 +349,10 @@ def step (st : St) : List String → St × String
           | some q => evalResp st mode tol xs ys q
     | _, _, _, _, _, _, _ => (st, "bad-op")
   -- the hexagonally segmented pupils: lattice, dropped segments, composition, all inside the model
+  | ["hexcount", name] =>
+    match posCfgOf name with
+    | some c => (st, s!"ok {c.positions.length} {c.rings} {showRat c.pitch} {showRat c.ap} {showRatList c.radii}")
+    | none => (st, "bad-op")
   | "hexpos" :: rings :: pitch :: ap :: nsel :: sels =>
     match parseNat? rings, parseRat? pitch, parseRat? ap, (parseNat? nsel).bind (parseSels? · sels) with
     | some rings, some pitch, some ap, some (sels, []) =>
